@@ -342,6 +342,38 @@ fn run(case: &HashMap<String, String>) -> String {
                 Err(_) => "{\"outcome\":\"err\",\"fails\":[]}".to_string(),
             }
         }
+        "rdata_names" => {
+            // every domain name inside the single answer's RDATA must have the labels given in `want` (hex of len|bytes per label)
+            let want = case["want"].to_lowercase();
+            fn names_of<'x>(rd: &'x crate::rdata::RData<'x>) -> Vec<&'x Name<'x>> {
+                use crate::rdata::RData::*;
+                match rd {
+                    NS(n) => vec![&n.0], MD(n) => vec![&n.0], MF(n) => vec![&n.0], CNAME(n) => vec![&n.0], MB(n) => vec![&n.0],
+                    MG(n) => vec![&n.0], MR(n) => vec![&n.0], PTR(n) => vec![&n.0], NSAP_PTR(n) => vec![&n.0],
+                    SOA(s) => vec![&s.mname, &s.rname], MINFO(m) => vec![&m.rmailbox, &m.emailbox], MX(m) => vec![&m.exchange],
+                    RP(r) => vec![&r.mbox, &r.txt], AFSDB(a) => vec![&a.hostname], RouteThrough(r) => vec![&r.intermediate_host],
+                    SRV(s) => vec![&s.target], NAPTR(n) => vec![&n.replacement], KX(k) => vec![&k.exchanger],
+                    RRSIG(r) => vec![&r.signer_name], NSEC(n) => vec![&n.next_name], SVCB(s) => vec![&s.target], HTTPS(h) => vec![&h.0.target],
+                    IPSECKEY(k) => match &k.gateway { crate::rdata::Gateway::Domain(n) => vec![n], _ => vec![] },
+                    _ => vec![],
+                }
+            }
+            match Packet::parse(&bytes) {
+                Ok(p) => {
+                    let mut fails: Vec<&str> = Vec::new();
+                    if p.answers.len() != 1 { fails.push("count"); } else {
+                        let ns = names_of(&p.answers[0].rdata);
+                        if ns.is_empty() { fails.push("no-name"); }
+                        for n in ns {
+                            let got: String = n.get_labels().iter().map(|l| format!("{:02x}{}", l.as_bytes().len(), hex(l.as_bytes()))).collect();
+                            if got != want { fails.push("rdata-name"); }
+                        }
+                    }
+                    format!("{{\"outcome\":\"ok\",\"fails\":[{}]}}", fails.iter().map(|s| format!("\"{}\"", s)).collect::<Vec<_>>().join(","))
+                }
+                Err(_) => "{\"outcome\":\"err\",\"fails\":[\"rejected\"]}".to_string(),
+            }
+        }
         "packet_order" => {
             // the A records of the additional section, in the order of the wire (an OPT record among them is lifted out)
             let want: Vec<u32> = case["addrs"].split(',').filter(|s| !s.is_empty()).map(|s| s.parse().unwrap()).collect();
